@@ -25,7 +25,7 @@ def discover():
         m = re.search(r"^PROPS\s*=\s*\{", src, re.M)
         if not m:
             continue
-        for pid in re.findall(r'^\s*"(C\d\d)"\s*:', src[m.start():], re.M):
+        for pid in re.findall(r'^\s*"([CX]\d\d)"\s*:', src[m.start():], re.M):
             reg[pid] = "harness.props." + name
     return reg
 
